@@ -85,7 +85,7 @@ class Row(Vector):
 	def __init__(self, table, index=0):
 		# SNAPSHOT: Grab raw column lists for speed
 		self._raw_cols = [col._underlying for col in table._underlying]
-		self._column_map = table._column_map
+		self._column_map = table._current_column_map()
 		self._index = index
 		
 		# Smart Dtype Inference (Runs once per table iteration/access)
@@ -300,11 +300,20 @@ class Table(Vector):
 
 		return column_map
 	
+	def _current_column_map(self):
+		"""The accessor map, rebuilt first if a column was renamed through a live view."""
+		if self._column_map is None or any(col._wild for col in self._underlying or []):
+			self._column_map = self._build_column_map()
+		return self._column_map
+
 	def __dir__(self):
 		"""Return list of available attributes including sanitized column names."""
 		# Use object.__dir__ to get instance attributes, then add column names
 		base_attrs = object.__dir__(self)
-		return set(list(self._build_column_map().keys()) + base_attrs)
+		# Keep the rebuilt map: building it marks the columns tame, so a map that is
+		# thrown away here would never be rebuilt again
+		self._column_map = self._build_column_map()
+		return set(list(self._column_map.keys()) + base_attrs)
 	
 	def column_names(self):
 		"""Return list of column names (original names, not sanitized).
@@ -451,7 +460,8 @@ class Table(Vector):
 				return
 			
 			# Regular column lookup by name
-			col_idx = self._column_map.get(attr) or self._column_map.get(attr.lower())
+			column_map = self._current_column_map()
+			col_idx = column_map.get(attr) or column_map.get(attr.lower())
 			if col_idx is not None:
 				# Replace the column in _underlying (store a snapshot, like Table.__init__:
 				# the caller's vector must stay independent of the table)
@@ -735,7 +745,8 @@ class Table(Vector):
 			target_indices = [col_spec]
 		elif isinstance(col_spec, str):
 			# Look up by name
-			idx = self._column_map.get(col_spec) or self._column_map.get(col_spec.lower())
+			column_map = self._current_column_map()
+			idx = column_map.get(col_spec) or column_map.get(col_spec.lower())
 			if idx is None:
 				raise SerifKeyError(f"Column '{col_spec}' not found")
 			target_indices = [idx]
@@ -743,7 +754,8 @@ class Table(Vector):
 			# Handle list of names/ints
 			for c in col_spec:
 				if isinstance(c, str):
-					idx = self._column_map.get(c) or self._column_map.get(c.lower())
+					column_map = self._current_column_map()
+					idx = column_map.get(c) or column_map.get(c.lower())
 					if idx is None:
 						raise SerifKeyError(f"Column '{c}' not found")
 					target_indices.append(idx)
